@@ -199,6 +199,23 @@ CHECKS["C14"] = dict(
     note=RTR_NOTE, technique="Lean 4 proofs over the PDU builders, tr_send_all and the byte-order conversions + two differential correspondences (protocol trace, conversion functions) + MSan",
     design="§5 C14")
 
+CHECKS["C18"] = dict(
+    text="PARTIAL (the allocator is an oracle). Proved on the model (RtrModel/Alloc.lean: every table operation and the allocating part of rtr_sync with their "
+         "allocation sites in the order of the C code, an oracle that refuses the k-th request): without refusals the functions coincide with the C02/C10 models "
+         "(failure_free_coincides); for every operation and every k a refused request yields the error code with the table exactly as before, or - the request was "
+         "optional: a shrinking realloc, a hash-table growth segment - the complete undisturbed effect (fail_contained*, hashlin_grow_optional); invariants hold "
+         "after any refusal (fail_keeps_invariant); block accounting: net allocations = change of table blocks for every operation and budget, a failing call "
+         "leaves nothing allocated, any history followed by free is balanced and never uses libc free (alloc_count, balanced, configured_free_only); rtr_sync under "
+         "any refusal is all-or-nothing-or-purged and leak-free (sync_fail_clean, sync_no_leak). Theorems about the unfixed variants are kept as witnesses "
+         "(F15/F16a/F16c/F16d_unfixed_*). Tie: the harness installs a counting allocator that refuses the k-th request via lrtr_set_alloc_functions, wraps libc free, "
+         "runs each operation for k = 0,1,2,... until undisturbed (rtr_sync on a scripted transport), under ASan/UBSan; the model driver replays the same file; "
+         "a set-semantics oracle and a coverage gate over 22 allocation-site classes judge the implementation's output.",
+    note="The real allocator, block sizes and realloc's old size are not modelled; a refused optional request (shrink, growth) is absorbed, which the property's "
+         "'reports an error' clause is read to permit because the operation then has its complete effect (see DESIGN.md 0.5). Five defects (F15, F16a-d) were "
+         "repaired in /repo.",
+    technique="Lean 4 proofs over an allocation-site model with a refusing oracle + differential correspondence with an injected failing allocator (every k) + set/accounting oracle",
+    design="§5 C18")
+
 NOT_YET = {}
 
 
